@@ -14,12 +14,27 @@ static struct ptrheap * H = NULL;
 static size_t lognum;
 static struct { size_t e, p; } logbuf[1 << 20];
 
+/* The caller's cookie: the callbacks must be handed exactly this pointer, by every operation. */
+static int the_cookie;
+#define COOKIE ((void *)&the_cookie)
+
+static void
+wrong_cookie(const char * who, void * cookie)
+{
+
+	fflush(stdout);
+	fprintf(stderr, "ERROR: WRONG-COOKIE: %s was handed %s instead of the caller's cookie\n", who,
+	    cookie == NULL ? "NULL" : "some other pointer");
+	abort();
+}
+
 static int
 compar(void * cookie, const void * x, const void * y)
 {
 	long long a = hkey[(size_t)(uintptr_t)x - 1], b = hkey[(size_t)(uintptr_t)y - 1];
 
-	(void)cookie;
+	if (cookie != COOKIE)
+		wrong_cookie("compar", cookie);
 	return ((a > b) - (a < b));
 }
 
@@ -28,7 +43,8 @@ setrc(void * cookie, void * ptr, size_t rc)
 {
 	size_t e = (size_t)(uintptr_t)ptr - 1;
 
-	(void)cookie;
+	if (cookie != COOKIE)
+		wrong_cookie("setreccookie", cookie);
 	hpos[e] = (long)rc;
 	if (lognum < (1 << 20)) {
 		logbuf[lognum].e = e;
@@ -72,7 +88,7 @@ heap_reset(void)
 {
 
 	ptrheap_free(H);
-	H = ptrheap_init(compar, setrc, NULL);
+	H = ptrheap_init(compar, setrc, COOKIE);
 	memset(hlive, 0, sizeof(hlive));
 	for (size_t i = 0; i < MAXID; i++)
 		hpos[i] = -1;
@@ -165,7 +181,7 @@ main(void)
 					hlive[e] = 1;
 					ptrs[n++] = (void *)(uintptr_t)(e + 1);
 				}
-			H = ptrheap_create(compar, setrc, NULL, n, ptrs);
+			H = ptrheap_create(compar, setrc, COOKIE, n, ptrs);
 			printf("ok | ");
 			print_l2(H);
 		} else if (hc_is("add", 2)) {
